@@ -1,6 +1,11 @@
-(* C02 "a healed network always drains the backlog": the DEFINITIONS of the progress theorem
-   (two-way system, link invariant, healed round).  No proofs of theorems in this file; the
-   lemmas at its end are generic list / wire-format helpers (prefix pg_) used by Progress.v.
+(* C02 "a healed network always drains the backlog": the DEFINITIONS of the progress theorems
+   (sections 1-4: two-way system sys2 / sys2_step / sys2_run / reach2, indices, the link invariant
+   link_inv, the healed round, the probe round, the draining round, the premises b8 / no_wrap_all),
+   followed (section 5) by single-endpoint helper lemmas (prefix pg_) used by Progress.v: wire
+   format (decoding is unique), the segment loop of Input over a datagram of encoded segments,
+   move_ready / parse_data with indices, what a receive-only endpoint emits, B call by call
+   (pg_b_step), A call by call against a set of received indices (pg_a_step).
+   The theorems are in Progress.v, their statements in C02b.v.
 
    Data flows A -> B, acknowledgements B -> A.  Net.v's `sys` records every datagram A emitted
    (`wire`); `sys2` adds `wireB`: every datagram B ever handed to its output callback. *)
@@ -185,6 +190,48 @@ Definition head_due (s : sys2) (t : Z) : Prop :=
 (* B8: no message has more fragments than B's receive window holds (message mode contract;
    in stream mode every fragment counter is 0) *)
 Definition b8 (s : sys2) : Prop := Forall (fun p => fst p < rcv_wnd (kB s)) (numbered_of s).
+
+(* everything A has accepted so far: numbered or still queued *)
+Definition backlog_len (s : sys2) : nat := (length (numbered_of s) + length (snd_queue (kA s)))%nat.
+
+(* ... as a list: the payloads numbered so far, then those still queued *)
+Definition all_src (s : sys2) : list (Z * bytes) := numbered_of s ++ map pay (snd_queue (kA s)).
+
+(* B8 for everything accepted so far *)
+Definition b8_all (s : sys2) : Prop := Forall (fun p => fst p < rcv_wnd (kB s)) (all_src s).
+
+(* the one bound on sequence numbers, for everything accepted so far *)
+Definition no_wrap_all (s : sys2) : Prop := Z.of_nat (backlog_len s) < H32 - 65536.
+
+(* the number of accepted segments not yet cumulatively acknowledged *)
+Definition unacked (s : sys2) : Z := Z.of_nat (backlog_len s) - a_idx s.
+
+(* a clock value at which the head of snd_buf is due *)
+Definition t_due (s : sys2) : Z :=
+  match snd_buf (kA s) with [] => 0 | h :: _ => u32 (s_resendts h) end.
+
+(* the probe round at clock value t: A flushes twice - at t, and when its probe timer is due (the
+   first zero-window flush may only arm the timer) -; everything A emitted reaches B in order;
+   B reads until Recv = -1 and flushes; everything B emitted since reaches A in order *)
+Definition probe_round (s : sys2) (t : Z) : option sys2 :=
+  bind2 (sys2_step s (EA (OFlush true t))) (fun s_1 =>
+  bind2 (sys2_step s_1 (EA (OFlush true (u32 (ts_probe (kA s_1)))))) (fun s_2 =>
+  bind2 (deliver (fun d => EB (OInput d true false t)) (new_wire s s_2) s_2) (fun s_3 =>
+  bind2 (b_drain s_3) (fun s_4 =>
+  bind2 (sys2_step s_4 (EB (OFlush true t))) (fun s_5 =>
+  deliver (fun d => EA (OInput d true false t)) (new_wireB s_2 s_5) s_5))))).
+
+(* one draining round: re-open the window when it is closed; flush twice (the first flush makes
+   cwnd >= 1, the second numbers queued data when nothing is outstanding); then the healed round
+   at a clock value at which the head of snd_buf is due *)
+Definition drain_round (s : sys2) : option sys2 :=
+  bind2 (if rmt_wnd (kA s) =? 0 then probe_round s 0 else Some s) (fun s_a =>
+  bind2 (sys2_step s_a (EA (OFlush true 0))) (fun s_b =>
+  bind2 (sys2_step s_b (EA (OFlush true 0))) (fun s_c =>
+  healed_round s_c (t_due s_c)))).
+
+Fixpoint drain_rounds (n : nat) (s : sys2) : option sys2 :=
+  match n with O => Some s | S n' => bind2 (drain_round s) (drain_rounds n') end.
 
 (* ================================================================== *)
 (* 5. helper lemmas (single endpoint)                                  *)
@@ -916,7 +963,8 @@ Qed.
 Definition pg_bseg (isn : Z) (k : kcp) (x : seg) : Prop :=
   seg_wf x /\ s_conv x = conv k /\
   (s_cmd x = c_IKCP_CMD_ACK \/ s_cmd x = c_IKCP_CMD_WASK \/ s_cmd x = c_IKCP_CMD_WINS) /\
-  s_una x = rcv_nxt k /\ (s_cmd x = c_IKCP_CMD_ACK -> got isn k (idx isn (s_sn x))).
+  s_una x = rcv_nxt k /\ (s_cmd x = c_IKCP_CMD_ACK -> got isn k (idx isn (s_sn x))) /\
+  s_wnd x = wnd_unused k.
 
 Lemma pg_bseg_ctl isn k c sn ts :
   inv k -> is_u32 (conv k) -> c = c_IKCP_CMD_ACK \/ c = c_IKCP_CMD_WASK \/ c = c_IKCP_CMD_WINS ->
@@ -924,7 +972,7 @@ Lemma pg_bseg_ctl isn k c sn ts :
   pg_bseg isn k (pg_ctl k c sn ts).
 Proof.
   intros Hinv Hc Hcmd Hsn Hts Hgot. unfold pg_bseg, pg_ctl. lv_segf.
-  split; [|split; [reflexivity|split; [exact Hcmd|split; [reflexivity|exact Hgot]]]].
+  split; [|split; [reflexivity|split; [exact Hcmd|split; [reflexivity|split; [exact Hgot|reflexivity]]]]].
   unfold seg_wf. lv_segf. split; [exact Hc|].
   split; [unfold c_IKCP_CMD_ACK, c_IKCP_CMD_WASK, c_IKCP_CMD_WINS in Hcmd; lia|].
   split; [lia|]. split; [apply ns_wnd_unused_range|]. split; [exact Hts|]. split; [exact Hsn|].
@@ -956,9 +1004,10 @@ Qed.
 
 Lemma pg_bseg_rv isn k k' x : pg_rv k' = pg_rv k -> conv k' = conv k -> pg_bseg isn k x -> pg_bseg isn k' x.
 Proof.
-  intros Hrv Hc (A & B & C & D & E). pose proof Hrv as H0. unfold pg_rv in H0. inversion H0 as [[E1 E2 E3 E4]].
+  intros Hrv Hc (A & B & C & D & E & W). pose proof Hrv as H0. unfold pg_rv in H0. inversion H0 as [[E1 E2 E3 E4]].
   unfold pg_bseg. rewrite Hc, E1. split; [exact A|]. split; [exact B|]. split; [exact C|]. split; [exact D|].
-  intros Hc'. apply (pg_rv_got isn k k'); [exact Hrv|]. exact (E Hc').
+  split; [intros Hc'; apply (pg_rv_got isn k k'); [exact Hrv|]; exact (E Hc')|].
+  rewrite W. unfold wnd_unused. rewrite E2, E4. reflexivity.
 Qed.
 
 Lemma pg_rv_nr k k' : pg_rv k' = pg_rv k -> nr_rcv k' = nr_rcv k.
